@@ -45,8 +45,8 @@ ASSUMPTIONS = [
     "post-selection on an outcome of zero mass may return an empty histogram or raise; nothing is required of it",
     "histograms are compared as multisets: entries of weight zero are immaterial (Counter addition drops them); a chained "
     "sum h1 + h2 + h3 whose intermediate h1 + h2 holds no shot at all is outside the premise (aggregate_histograms(h1,h2,h3) is checked)",
-    "resampling: n in {1,2,3}; the sampler is restricted to outcomes of non-zero probability; chunked sampling "
-    "(n > 10**7) is out of reach",
+    "resampling: n in {1,2,3} with every draw sequence; the sampler is restricted to outcomes of non-zero probability; the chunked "
+    "sampling path (n >= 10**7) is explored with constant-valued bulk draws only (draw sizes must add up to n, counts conserved)",
 ]
 TOL = 1e-9
 TOLN = 1e-12
@@ -130,6 +130,9 @@ class _SupportRv:
     def rvs(self, size=1, **kw):
         size = int(size)
         support = [i for i, p in enumerate(self.pk) if p > 0]
+        if size > seams.BULK:   # chunked path: constant answer, one choice over the support
+            i = self.ch.choose(len(support), "rv_discrete.rvs[bulk]", {"xk": self.xk, "pk": self.pk, "size": size, "support": support, "bulk": True})
+            return np.full(size, self.xk[support[i]], dtype=np.int64)
         seqs = choicetree.sequences(len(support), size)
         i = self.ch.choose(len(seqs), "rv_discrete.rvs", {"xk": self.xk, "pk": self.pk, "size": size, "support": support})
         return np.array([self.xk[support[j]] for j in seqs[i]], dtype=np.int64)
@@ -437,17 +440,25 @@ def check_group(case, acc):
         # 4. expectation value assembled from exact per-basis histograms == term-by-term value
         for si in range(6):
             acc.ev()
-            hists = {b: dict(basis_hist(n, vseed, si, b)) for b in res.keys()}
+            hists0 = {b: dict(basis_hist(n, vseed, si, b)) for b in res.keys()}
             ref = sum(c * term_exp(n, vseed, si, t) for t, c in ref_terms.items())
-            try:
-                val = complex(exp_value_from_measurement_bases(res, hists))
-            except HARNESS_ERRORS:
-                raise
-            except Exception as e:
-                bad("exp_value_from_measurement_bases", "exception", {"err": repr(e)[:300], "state": si}, choices)
-                continue
-            if abs(val - ref) > TOL:
-                bad("exp_value_from_measurement_bases", "value", {"got": val, "ref": ref, "state": si, "groups": canon}, choices)
+            # the histograms are keyed by basis: the value must not depend on the insertion order of that dictionary
+            ks = list(hists0)
+            orders = [("as-grouped", ks)]
+            if len(ks) > 1:
+                orders += [("reversed", ks[::-1]), ("rotated", ks[1:] + ks[:1])]
+            for oname, korder in orders:
+                hists = {b: hists0[b] for b in korder}
+                try:
+                    val = complex(exp_value_from_measurement_bases(res, hists))
+                except HARNESS_ERRORS:
+                    raise
+                except Exception as e:
+                    bad("exp_value_from_measurement_bases", "exception", {"err": repr(e)[:300], "state": si, "histogram_order": oname}, choices)
+                    continue
+                if abs(val - ref) > TOL:
+                    bad("exp_value_from_measurement_bases", "value" if oname == "as-grouped" else "value-depends-on-histogram-dict-order",
+                        {"got": val, "ref": ref, "state": si, "groups": canon, "histogram_order": oname}, choices)
     acc.states += n_exec
     acc.count("group_executions", n_exec)
     if merged or len(seen) > 1:
@@ -1085,6 +1096,60 @@ def nary_pool(L, desc):
     return pool
 
 
+def check_resample_bulk(case, acc):
+    """Chunked sampling loops of get_resampled_frequencies / Histogram.resample: shot numbers on both sides of (multiples of)
+    the chunk size; every bulk draw is answered by a constant array (one choice over the support, all explored): the draw sizes
+    must add up to n and the result must be the scripted counts (/ n)."""
+    import tangelo.toolboxes.post_processing.bootstrapping as BS
+    from tangelo.toolboxes.post_processing import Histogram
+    d = {str(k): v for k, v in case["d"].items()}
+    n, via = case["n"], case["via"]
+    L = len(next(iter(d)))
+    freqs = RH.normalise(d)
+    site = "Histogram.resample" if via == "method" else "get_resampled_frequencies"
+
+    def run(ch):
+        with seams.patched(BS, "stats", SupportStatsProxy(ch)):
+            try:
+                if via == "method":
+                    return ("ok", tuple(sorted(Histogram(dict(d)).resample(n).counts.items())))
+                return ("ok", tuple(sorted(BS.get_resampled_frequencies(dict(freqs), n).items())))
+            except HARNESS_ERRORS:
+                raise
+            except Exception as e:
+                return ("raised", repr(e)[:200])
+
+    n_exec = 0
+    for choices, trace, infos, res in choicetree.explore(run, check_replay=False):
+        n_exec += 1
+        acc.ev()
+        acc.transitions += max(1, len(trace))
+        if res[0] != "ok":
+            acc.violation(f"{site}/exception/bulk/n{n}", case, {"err": res[1]}, group=f"{site}/exception")
+            continue
+        want, total = {}, 0
+        for info, c in zip(infos, choices):
+            total += info["size"]
+            if info["size"] == 0:
+                continue
+            if info.get("bulk"):
+                picks = [(info["support"][c], info["size"])]
+            else:
+                picks = [(info["support"][j], 1) for j in choicetree.sequences(len(info["support"]), info["size"])[c]]
+            for j, m in picks:
+                k = format(info["xk"][j], f"0{L}b")
+                want[k] = want.get(k, 0) + m
+        got = {k: v for k, v in res[1] if v != 0}
+        if via == "function":
+            want = {k: v / n for k, v in want.items()}
+        if total != n or set(got) != set(want) or any(abs(got[k] - want[k]) > 1e-12 for k in want):
+            acc.violation(f"{site}/chunked-draws-do-not-add-up-to-n/L{L}", case,
+                          {"n": n, "draw_sizes": [i["size"] for i in infos], "got": got, "want": want}, group=f"{site}/chunked-draws")
+        acc.out(str((via, "bulk", n, tuple(sorted(got.items())))))
+    acc.states += n_exec
+    acc.nt(str(("resample-bulk", via, n)))
+
+
 def resample_plan(tier):
     """(mode, L, max_support, n values)."""
     if tier == "quick":
@@ -1164,8 +1229,12 @@ def shards(tier, seed):
     nres = sum(1 for _ in resample_cases(tier))
     for lo, hi in _chunks(nres, 1500 if tier == "quick" else 3000):
         sh.append({"kind": "resample", "lo": lo, "hi": hi, "tier": tier})
+    CH = 10 ** 7   # chunk size of the sampling loops (a local constant of the implementation)
+    for n in ((CH - 1, CH, CH + 1, 2 * CH) if tier == "quick" else (64, 65, CH - 1, CH, CH + 1, 2 * CH - 1, 2 * CH, 2 * CH + 1, 3 * CH)):
+        for via in ("method", "function"):
+            sh.append({"kind": "resample_bulk", "n": n, "via": via})
     # heaviest first
-    order = {"group": 0, "resample": 1, "nary": 2, "hist": 3, "qwc": 4, "decimal": 5}
+    order = {"resample_bulk": -1, "group": 0, "resample": 1, "nary": 2, "hist": 3, "qwc": 4, "decimal": 5}
     sh.sort(key=lambda s: order[s["kind"]])
     return sh
 
@@ -1214,6 +1283,10 @@ def _run_shard(sh):
                 j //= n
             check_nary({"kind": "nary", "ds": [pool[t] for t in idx]}, acc)
         acc.sample({"kind": "nary", "ds": [pool[(sh["lo"] * 7 + t) % n] for t in range(kk)]}, cap=1)
+    elif k == "resample_bulk":
+        case = {"kind": "resample_bulk", "d": {"01": 1, "10": 3}, "n": sh["n"], "via": sh["via"]}
+        check_resample_bulk(case, acc)
+        acc.sample(case, cap=1)
     elif k == "resample":
         for i, case in enumerate(resample_cases(sh["tier"])):
             if sh["lo"] <= i < sh["hi"]:
@@ -1249,6 +1322,8 @@ def replay_case(case):
             check_nary(case, acc)
         elif k == "resample":
             check_resample(case, acc)
+        elif k == "resample_bulk":
+            check_resample_bulk(case, acc)
     for key, (_, w) in acc.viol.items():
         rep = (w.get("detail") or {}).get("repro") if isinstance(w.get("detail"), dict) else None
         if rep:
